@@ -7,6 +7,8 @@ import (
 
 	ds "github.com/ipfs/go-datastore"
 	dsq "github.com/ipfs/go-datastore/query"
+
+	"verif/simrt"
 )
 
 // Disk is a datastore.Batching with an append-only write log; every Put/Delete/Commit is one
@@ -21,6 +23,18 @@ type Disk struct {
 	Dead bool
 	// OnCommit is called after every successful write (fault placement)
 	OnCommit func(n int)
+	// YieldOps makes every datastore operation a scheduling point, so that other tasks interleave with
+	// multi-step datastore work such as a migration
+	YieldOps bool
+	// Reads/Writes by key prefix are counted for oracles that must show "did not touch"
+	Touched []string
+}
+
+func (d *Disk) touch(op, key string) {
+	if d.YieldOps {
+		d.Touched = append(d.Touched, op+" "+key)
+		simrt.Yield("disk." + op)
+	}
 }
 
 type WriteOp struct {
@@ -75,6 +89,7 @@ func (e diskErr) Error() string { return string(e) }
 const errDisk = diskErr("simdisk: injected write error")
 
 func (d *Disk) Get(ctx context.Context, k ds.Key) ([]byte, error) {
+	d.touch("get", k.String())
 	v, ok := d.m[k.String()]
 	if !ok {
 		return nil, ds.ErrNotFound
@@ -82,6 +97,7 @@ func (d *Disk) Get(ctx context.Context, k ds.Key) ([]byte, error) {
 	return append([]byte(nil), v...), nil
 }
 func (d *Disk) Has(ctx context.Context, k ds.Key) (bool, error) {
+	d.touch("has", k.String())
 	_, ok := d.m[k.String()]
 	return ok, nil
 }
@@ -93,6 +109,7 @@ func (d *Disk) GetSize(ctx context.Context, k ds.Key) (int, error) {
 	return len(v), nil
 }
 func (d *Disk) Query(ctx context.Context, q dsq.Query) (dsq.Results, error) {
+	d.touch("query", q.Prefix)
 	keys := make([]string, 0, len(d.m))
 	for k := range d.m {
 		if strings.HasPrefix(k, q.Prefix) {
@@ -111,9 +128,11 @@ func (d *Disk) Query(ctx context.Context, q dsq.Query) (dsq.Results, error) {
 	return dsq.NaiveQueryApply(q2, res), nil
 }
 func (d *Disk) Put(ctx context.Context, k ds.Key, v []byte) error {
+	d.touch("put", k.String())
 	return d.commit(WriteEntry{Ops: []WriteOp{{Key: k.String(), Value: append([]byte(nil), v...)}}})
 }
 func (d *Disk) Delete(ctx context.Context, k ds.Key) error {
+	d.touch("delete", k.String())
 	return d.commit(WriteEntry{Ops: []WriteOp{{Key: k.String(), Delete: true}}})
 }
 func (d *Disk) Sync(ctx context.Context, prefix ds.Key) error { return nil }
@@ -139,6 +158,7 @@ func (b *batch) Commit(ctx context.Context) error {
 	}
 	ops := b.ops
 	b.ops = nil
+	b.d.touch("commit", "")
 	return b.d.commit(WriteEntry{Ops: ops})
 }
 
@@ -158,4 +178,25 @@ func (d *Disk) rawBySuffix(suffix string) string {
 		out += k + "=" + string(d.m[k]) + ";"
 	}
 	return out
+}
+
+func dsKey(s string) ds.Key { return ds.NewKey(s) }
+
+// dump renders all keys under prefix with their bytes (for byte-equality checks).
+func (d *Disk) dump(prefix string) string {
+	keys := make([]string, 0, len(d.m))
+	for k := range d.m {
+		if strings.HasPrefix(k, prefix) {
+			keys = append(keys, k)
+		}
+	}
+	sort.Strings(keys)
+	var sb strings.Builder
+	for _, k := range keys {
+		sb.WriteString(k)
+		sb.WriteByte('=')
+		sb.Write(d.m[k])
+		sb.WriteByte(';')
+	}
+	return sb.String()
 }
